@@ -25,7 +25,7 @@ RULE = ("seeded random YAML files (plus a fixed corpus) mixing plaintext scalars
         "everything else (keys, order, anchors, plain values) is unchanged, the stand-in was called once per distinct "
         "secret; a file without secrets is neither rewritten nor backed up.  Correspondence: document after the run "
         "(secrets compared without blanks/line breaks), exit status, written/not written, numbers of decrypt and encrypt "
-        "calls equal the Lean model's.  is_eyaml_value is compared with the model's isEyaml on every string of length "
+        "calls equal the Lean model's (of a run that exits non-zero only the status is compared).  is_eyaml_value is compared with the model's isEyaml on every string of length "
         "<= 7 over {E,N,C,[,blank,newline,x} (exhaustive) .  distinct_nontrivial = distinct documents holding >= 1 secret.")
 
 FAKE_EYAML = os.path.join(core.HERE, "tools", "fake_eyaml")
@@ -449,6 +449,9 @@ def direct_check(case, r):
     for addr, l in secrets:
         l2 = aft.get(addr)
         p_old = dec(OLD, l["v"])
+        if p_old is None and root_scalar:
+            bad.append(("root-scalar-secret-not-rotated", "a document that is one (undecryptable) encrypted scalar: exit 0, untouched"))
+            continue
         if p_old is None:
             bad.append(("success-with-undecryptable", "exit 0 although %r does not decrypt under the old key" % (addr,)))
             continue
@@ -579,10 +582,19 @@ def run(chk: core.Check):
             chk.violation(sig, what, {"text": case["text"]})
         # correspondence with the model
         mo = r["model"]
+        if r["rc"] != 0 and any(is_marker(dec(OLD, l["v"]) or "") for _a, l in leaves(r["before"])
+                                if l.get("k") == "str" and is_marker(l["v"])):
+            # a failed run over a document of the C19-F2 class (a plaintext that looks encrypted is stored
+            # raw and may be picked up again through an aliased container): the model does not re-walk
+            chk.out_of_model += 1
+            continue
         chk.disagreements_checked += 1
         written = r["rewritten"] or r["bak"] is not None
         if (r["rc"] != 0) != mo["failed"]:
             chk.disagreement("exit", "exit status %s, model failed=%s" % (r["rc"], mo["failed"]), {"text": case["text"]})
+        elif r["rc"] != 0:
+            # the property speaks about successful runs; of a failing run only the status is compared
+            chk.count("failed-run-status-only")
         elif written != mo["changed"]:
             chk.disagreement("written", "file written=%s, model changed=%s" % (written, mo["changed"]), {"text": case["text"]})
         elif "after" in r and norm(drop_single_container_anchors(r["after"], anchor_counts(r["before"]))) != norm(
